@@ -33,7 +33,7 @@ def main():
             for p in props:
                 r = subprocess.run([sys.executable, os.path.join(HERE, 'check.py'), p, '--repo', scratch, '--tier', a.tier], stdout=subprocess.PIPE, stderr=subprocess.STDOUT, text=True, cwd=VERIF)
                 lines = r.stdout.strip().split('\n')
-                fo = [l.strip() for l in lines if 'failed obligation' in l][:2]
+                fo = [l.strip()[:170] for l in lines if 'failed obligation' in l][:6]
                 und = [l for l in lines if l.startswith('UNDECIDED')][:1]
                 verdict = {0: 'pass', 1: 'VIOLATION', 2: 'undecided'}.get(r.returncode, '?')
                 exp = 'expected' if p in m['breaks'] else 'not-expected'
@@ -41,7 +41,7 @@ def main():
                 if p in m['breaks'] and r.returncode != 1: flag = '  <== MISSED'
                 if p not in m['breaks'] and r.returncode == 1: flag = '  (also alarms)'
                 if m.get('harmless') and r.returncode != 0: flag = '  <== FALSE ALARM'
-                print('%-28s %s %-9s %-12s %s%s' % (m['id'], p, verdict, exp, (fo or und or [''])[0][:150], flag))
+                print('%-28s %s %-9s %-12s %s%s' % (m['id'], p, verdict, exp, ' || '.join(fo or und or ['']), flag))
                 sys.stdout.flush()
     finally:
         shutil.rmtree(scratch, ignore_errors=True)
